@@ -111,10 +111,11 @@ struct DecodeCharsetFn {
 
 impl FunctionExpression for DecodeCharsetFn {
     fn resolve(&self, ctx: &mut Context) -> Resolved {
-        let value = self.value.resolve(ctx)?.try_bytes()?;
+        let value = self.value.resolve(ctx)?;
+        let value = value.try_bytes_utf8_lossy()?;
         let to_charset = self.to_charset.resolve(ctx)?.try_bytes()?;
 
-        encode_charset(from_utf8(value.as_bytes()).unwrap(), to_charset.as_bytes())
+        encode_charset(&value, to_charset.as_bytes())
     }
 
     fn type_def(&self, _state: &TypeState) -> TypeDef {
